@@ -181,7 +181,7 @@ func (fv *FuncVC) havoc(ms *modSet, tag string) {
 		st.heap[k] = fv.freshHeap(k+"_"+tag, s)
 	}
 	for g := range ms.globals {
-		if fv.P.globalProtected(g) {
+		if fv.P.globalProtected(g) && !(isInitFn(fv.Fn) && fv.Fn.Pkg == g.Pkg) {
 			continue
 		}
 		gt := g.Type().(*types.Pointer).Elem()
@@ -253,7 +253,14 @@ func (fv *FuncVC) loopHeader(b *ssa.BasicBlock, phis []*ssa.Phi, entryVal func(*
 		}
 		for _, inv := range spec.Invs {
 			t := env.evalBool(inv.E, inv)
-			fv.oblige("inv-init", fmt.Sprintf("loop%d.%d", n, inv.Idx), inv.Props, fv.blockPos(b), t, inv.Src)
+			cs := splitAnd(t)
+			for ci, c := range cs {
+				d := fmt.Sprintf("loop%d.%d", n, inv.Idx)
+				if len(cs) > 1 {
+					d = fmt.Sprintf("loop%d.%d.%d", n, inv.Idx, ci+1)
+				}
+				fv.oblige("inv-init", d, inv.Props, fv.blockPos(b), c, inv.Src)
+			}
 		}
 	} else if fv.C != nil {
 		fv.warn("loop %d at %s has no invariant: loop-carried state is unconstrained", n, fv.P.relPos(fv.blockPos(b)))
@@ -330,7 +337,14 @@ func (fv *FuncVC) backEdge(p, h *ssa.BasicBlock, succIdx int) {
 	}
 	for _, inv := range spec.Invs {
 		t := env.evalBool(inv.E, inv)
-		fv.oblige("inv-keep", fmt.Sprintf("loop%d.%d", n, inv.Idx), inv.Props, fv.blockPos(p), t, inv.Src)
+		cs := splitAnd(t)
+		for ci, c := range cs {
+			d := fmt.Sprintf("loop%d.%d", n, inv.Idx)
+			if len(cs) > 1 {
+				d = fmt.Sprintf("loop%d.%d.%d", n, inv.Idx, ci+1)
+			}
+			fv.oblige("inv-keep", d, inv.Props, fv.blockPos(p), c, inv.Src)
+		}
 	}
 	if spec.Decreases != nil {
 		m0 := fv.loopMeasure[h]
